@@ -68,4 +68,62 @@ func Get
       invariant[ends]   segments[0].GetOffset() < offset && offset < segments[len(segments)-1].GetOffset()
       decreases endIndex - beginIndex + 1
 
+
+// ================================================================ durability typestate of the rewrite protocols (C05, C06)
+// Thin units (flags only_sync): only the obligations labelled sync_* are generated here:
+// every temp file is fsynced before the rename that commits it (precondition of os.Rename),
+// and the directory is fsynced afterwards when AutoSync is set.
+
+// ASSUMED (I/O)
+func kdir.Sync
+    flags assumed
+    assigns dirDirty
+    ensures retErr == nil ==> !dirDirty[dir]
+    ensures forall d string :: d != dir ==> dirDirty[d] == old(dirDirty[d])
+
+func (Segment).Rename
+    flags noframe only_sync
+    requires[sync_src] !fsDirty[olds.Log] && !fsDirty[olds.Index]
+    assigns fsDirty, fsExists, fsContent, dirDirty
+    ensures[sync_dir] err == nil && news.AutoSync ==> !dirDirty[news.Dir]
+
+func (Segment).Override
+    flags noframe only_sync
+    requires[sync_src] !fsDirty[olds.Log] && !fsDirty[olds.Index]
+    assigns fsDirty, fsExists, fsContent, dirDirty
+    ensures[sync_dir] err == nil && news.AutoSync ==> !dirDirty[news.Dir]
+
+func (Segment).Remove
+    flags noframe only_sync
+    assigns fsExists, dirDirty
+
+func (Segment).Recover
+    flags noframe only_sync
+    assigns fPath, fsDirty, fsExists, fsContent, dirDirty, index.Writer.pos
+    loop 1
+      invariant[sync] wrOK(restore)
+
+func (Segment).Migrate
+    flags noframe only_sync
+    assigns fPath, fsDirty, fsExists, fsContent, dirDirty, index.Writer.pos
+    ensures[sync_dir] err == nil && s.AutoSync && fsContent[s.Log] != old(fsContent[s.Log]) ==> !dirDirty[s.Dir]
+    loop 1
+      invariant[sync] wrOK(migratedLog)
+
+func (Segment).Rewrite
+    flags noframe only_sync
+    assigns fPath, fsDirty, fsExists, fsContent, dirDirty, index.Writer.pos, RewriteSegment.DeletedMessages, RewriteSegment.DeletedSize, RewriteSegment.Stats, RewriteSegment.Segment
+    // both rewritten files are durable before the caller may rename them into place
+    ensures[sync_clean] err == nil ==> ret0 != nil && !fsDirty[ret0.Log] && !fsDirty[ret0.Index]
+    ensures[sync_handles] forall g *os.File :: !fresh(g) ==> fPath[g] == old(fPath[g])
+    loop 1
+      invariant[sync] wrOK(dstLog) && dstLog.Path == dst.Log && (forall g *os.File :: !fresh(g) ==> fPath[g] == old(fPath[g]))
+
+func (Segment).ReindexReader
+    flags noframe only_sync
+    assigns fPath, fsDirty, fsExists, index.Writer.pos
+    ensures[sync_clean] err == nil ==> !fsDirty[s.Index]
+    loop 1
+      invariant[sync] true
+
 @*/
